@@ -536,7 +536,7 @@ def searches(tier):
     q = tier == 'quick'
     S = [Search('enum_len2_full', 'enum', enum_prefixes(2, True, True), shards=16),
          Search('enum_len3_reduced', 'enum', enum_prefixes(3, False, False), shards=16),
-         Search('random_histories', 'hyp', random_case, n=800 if q else 16000, shards=8 if q else 16)]
+         Search('random_histories', 'hyp', random_case, n=640 if q else 16000, shards=16)]
     if not q:
         S.insert(1, Search('enum_len3_full', 'enum', enum_prefixes(3, True, True), shards=16))
         S.insert(3, Search('enum_len4_reduced', 'enum', enum_prefixes(4, False, False), shards=16))
